@@ -290,3 +290,16 @@ func ExposesBeyond(sink, secret, public string) bool { return Exposes(sink, secr
 // NoSummary makes the executor run the named summarised library function (suffix match, e.g.
 // "defaults.tallyCharacters") from its real body.
 func NoSummary(nameSuffix string) {}
+
+// MarkShared marks every heap location reachable from the roots (and from package-level
+// variables) as outliving the current request; writes to such locations by library code are
+// recorded from now on (C20). Native: no-op.
+func MarkShared(roots ...interface{}) {}
+
+// SharedWrites reports the recorded writes as failed assertions "<label>: <function> writes
+// <what>" and returns their number. Native: 0.
+func SharedWrites(label string) int { return 0 }
+
+// SyncCensus fails the run as inconclusive if library code uses synchronisation primitives
+// (the access-set argument for race freedom would not apply). Native: no-op.
+func SyncCensus() {}
